@@ -61,6 +61,10 @@ def configs(tier, seed=0):
     for k in ([0, 1] if tier == 'quick' else [0, 1, 2, 3]):
         out.append({'key': 'exp/tune/k%d' % k, 'kind': 'tune', 'iface': 'exp', 'dim': 1, 'k': k})
     out.append({'key': 'exp/stepsize-handover', 'kind': 'handover', 'iface': 'exp', 'dim': 1})
+    # base case of the representation invariant: initialization from a user-given point leaves caches that belong to THAT point
+    for d in [1, 2]:
+        for how in ['initialize', 'sample', 'warmup', 'reinitialize']:
+            out.append({'key': 'exp/init/%s/d%d' % (how, d), 'kind': 'init', 'iface': 'exp', 'dim': d, 'how': how})
     out.append({'key': 'legacy/gradient-cache/depth0/d1', 'kind': 'legacy-cache', 'iface': 'legacy', 'dim': 1, 'max_depth': 0, 'eps': 0.5, 'fork_budget': 40, 'max_paths': 3000})
     if tier != 'quick':
         out.append({'key': 'legacy/gradient-cache/depth0/d2', 'kind': 'legacy-cache', 'iface': 'legacy', 'dim': 2, 'max_depth': 0, 'eps': 0.5, 'fork_budget': 40, 'max_paths': 3000})
@@ -248,6 +252,10 @@ def prove_state(c, cfg, name, what, got, leaf):
 
 
 class StreamExhausted(Exception):
+    pass
+
+
+class _StopAfterFirstTree(Exception):
     pass
 
 
@@ -488,6 +496,40 @@ def run(cfg, c):
         c.prove_close('after the first sampling transition every transition uses the averaged step size epsilon_bar reached by warm-up',
                       np.array(list(used[3:]) + [s._epsilon_bar], dtype=dt), np.array([ebar_after_warm] * 3, dtype=dt), info=fk(cfg, 'fixed-after-warmup'))
         c.prove_close('epsilon_bar is not changed by sampling transitions', np.array(s.epsilon_bar_list[2:], dtype=dt), np.array([ebar_after_warm] * 3, dtype=dt), info=fk(cfg, 'ebar-constant'))
+        return
+
+    if kind == 'init':
+        target = mc.make_target(d, 'T')
+        x = c.reals('x', d)
+        s = cuqi.experimental.mcmc.NUTS(target, initial_point=x, max_depth=0, step_size=0.5)
+        first = []
+        orig = s._BuildTree
+
+        def spy(point_k, r_, grad_, Ham_, *a_, **k_):
+            if not first:
+                first.append((np.copy(point_k), np.copy(grad_), Ham_, np.copy(r_)))
+            raise _StopAfterFirstTree()
+        how = cfg['how']
+        if how == 'initialize':
+            s.initialize()
+        elif how == 'reinitialize':
+            s.initialize()
+            s.current_point = x + 1.0
+            s.current_target_logd, s.current_target_grad = mc.T(c, x + 1.0), mc.gradT(c, x + 1.0, d)
+            s.reinitialize()
+        else:
+            s._BuildTree = spy
+            try:
+                s.sample(1) if how == 'sample' else s.warmup(1)
+            except _StopAfterFirstTree:
+                pass
+        c.prove_close('after %s: current point is the given initial point and the cached log-density / gradient belong to it' % how,
+                      np.concatenate([np.asarray(s.current_point, dtype=dt).ravel(), [s.current_target_logd], np.asarray(s.current_target_grad, dtype=dt).ravel()]),
+                      np.concatenate([x, [mc.T(c, x)], mc.gradT(c, x, d)]), info=fk(cfg, 'cache'))
+        if first:
+            r0 = np.asarray([dr for dr in c.draws if dr['kind'] == 'normal'][0]['value'], dtype=dt).ravel()
+            c.prove_close('first tree of the run starts from (x0, grad T(x0)) with H = T(x0) - |r|^2/2', np.concatenate([first[0][0], first[0][1], [first[0][2]]]),
+                          np.concatenate([x, mc.gradT(c, x, d), [mc.T(c, x) - ksum(r0)]]), info=fk(cfg, 'first-tree'))
         return
 
     if kind == 'legacy-cache':
